@@ -194,6 +194,8 @@ def obligations(tier):
              clause="the bindings collected for a record update / constructor application become nested lets in binding order: the first binding is the outermost let, so the parts are evaluated left to right as the strict semantics says (loop invariant against the specification nest_lets)"),
         dict(engine="verus", unit="binder", function="Binder::into_expr_ref", name="C01/core/Binder_into_expr_ref", source="vm/src/core/mod.rs::Binder::into_expr_ref",
              clause="same for the by-reference variant"),
+        dict(engine="verus", unit="binder", function="PatternTranslator::translate::no_variables", name="C01/core/match_first_equation_wins", source="vm/src/core/mod.rs::PatternTranslator::translate (arm: no scrutinee variables left)",
+             clause="base case of the match compilation: of the remaining (all matching) equations the first in source order supplies the result; the default only when none is left"),
         v("compiler", "compile_primitive::and", "`a && b`: a is compiled out of tail position, b inherits the tail position; code layout [a, CJump(L+3), False, Jump(end), b]: b runs only if a is True, otherwise the result is False", "vm/src/compiler.rs::compile_primitive (&& block)"),
         v("compiler", "compile_primitive::or", "`a || b`: a out of tail position, b inherits it; layout [a, CJump(T), b, Jump(end), T: True]: a True a skips b and yields True", "vm/src/compiler.rs::compile_primitive (|| block)"),
         v("compiler", "ProgramCounter::new", "establishes index < len and last == Return", "vm/src/thread.rs::ProgramCounter::new"),
